@@ -209,7 +209,8 @@ def check_property(pid, tier="quick", seed=0, jobs=None):
         if rep and rep.get("reproduced"):
             lines.append(f"  replayed on the real code: {str(rep.get('witness'))[:300]}")
 
-    n_ob = len(obligations) - len(known_hit)
+    known_names = {o["name"] for o in known_hit}
+    n_ob = len([o for o in obligations if o["name"] not in known_names])
     n_dis = sum(1 for o in obligations if o["verdict"] == "discharged")
     level = getattr(mod, "LEVEL", "proof")
     assumptions = list(getattr(mod, "ASSUMPTIONS", []))
